@@ -488,6 +488,18 @@ func exhaustive(c *vt.Ctx, kt *kernel.Thread, kind string) {
 			}
 		}
 	}
+	// ... and a directory handle whose directory loses the search bit before File.Chdir
+	for i, perm := range []uint32{0o000, 0o600, 0o444, 0o111, 0o311, 0o755} {
+		if i%c.NShards != c.Shard {
+			continue
+		}
+		cs := append(append([]fsx.Op{}, setup...), fsx.Op{K: "Open", P: dirD, Flag: os.O_RDONLY, H: 0}, fsx.Op{K: "FChmod", H: 0, Perm: perm}, fsx.Op{K: "FChdir", H: 0},
+			fsx.Op{K: "FReadDir", H: 0, N: -1}, fsx.Op{K: "FStat", H: 0})
+		if dev := runCase(c, kt, kind, cs, "u1"); dev != nil {
+			c.Report(dev, Case{FS: kind, Ops: cs, As: "u1"})
+		}
+		c.NonTrivial(vt.Hash64("dirperm", fmt.Sprint(perm)))
+	}
 	c.Extra("special_bits_"+kind, fmt.Sprintf("%d cases: 7 special-bit modes x 3 flag sets x %d modifying ops as the owning non-administrator", n, len(mods)))
 }
 
